@@ -292,9 +292,9 @@ func (x Expr) Get(data any) (results []any) {
 			if (di & descentFlag) == 0 {
 				switch tv := prev.(type) {
 				case map[string]any:
-					// Put prev back and slide fi.
-					stack[len(stack)-1] = prev
-					stack = append(stack, di|descentFlag)
+					// Put prev back under a frame of its own; the frame it came with
+					// may still serve siblings below it.
+					stack = append(stack, prev, di|descentFlag)
 					if int(fi) == len(x)-1 { // last one
 						for _, v = range tv {
 							results = append(results, v)
@@ -318,9 +318,9 @@ func (x Expr) Get(data any) (results []any) {
 						}
 					}
 				case []any:
-					// Put prev back and slide fi.
-					stack[len(stack)-1] = prev
-					stack = append(stack, di|descentFlag)
+					// Put prev back under a frame of its own; the frame it came with
+					// may still serve siblings below it.
+					stack = append(stack, prev, di|descentFlag)
 					if int(fi) == len(x)-1 { // last one
 						results = append(results, tv...)
 					}
@@ -344,9 +344,9 @@ func (x Expr) Get(data any) (results []any) {
 					}
 				case Keyed:
 					keys := tv.Keys()
-					// Put prev back and slide fi.
-					stack[len(stack)-1] = prev
-					stack = append(stack, di|descentFlag)
+					// Put prev back under a frame of its own; the frame it came with
+					// may still serve siblings below it.
+					stack = append(stack, prev, di|descentFlag)
 					if int(fi) == len(x)-1 { // last one
 						for _, k := range keys {
 							v, _ := tv.ValueForKey(k)
@@ -373,9 +373,9 @@ func (x Expr) Get(data any) (results []any) {
 					}
 				case Indexed:
 					size := tv.Size()
-					// Put prev back and slide fi.
-					stack[len(stack)-1] = prev
-					stack = append(stack, di|descentFlag)
+					// Put prev back under a frame of its own; the frame it came with
+					// may still serve siblings below it.
+					stack = append(stack, prev, di|descentFlag)
 					if int(fi) == len(x)-1 { // last one
 						for i := 0; i < size; i++ {
 							results = append(results, tv.ValueAtIndex(i))
@@ -400,9 +400,9 @@ func (x Expr) Get(data any) (results []any) {
 						}
 					}
 				case gen.Object:
-					// Put prev back and slide fi.
-					stack[len(stack)-1] = prev
-					stack = append(stack, di|descentFlag)
+					// Put prev back under a frame of its own; the frame it came with
+					// may still serve siblings below it.
+					stack = append(stack, prev, di|descentFlag)
 					if int(fi) == len(x)-1 { // last one
 						for _, v = range tv {
 							results = append(results, v)
@@ -416,9 +416,9 @@ func (x Expr) Get(data any) (results []any) {
 						}
 					}
 				case gen.Array:
-					// Put prev back and slide fi.
-					stack[len(stack)-1] = prev
-					stack = append(stack, di|descentFlag)
+					// Put prev back under a frame of its own; the frame it came with
+					// may still serve siblings below it.
+					stack = append(stack, prev, di|descentFlag)
 					if int(fi) == len(x)-1 { // last one
 						for _, v = range tv {
 							results = append(results, v)
@@ -434,8 +434,7 @@ func (x Expr) Get(data any) (results []any) {
 					}
 				default:
 					got := reflectGetWild(tv)
-					stack[len(stack)-1] = prev
-					stack = append(stack, di|descentFlag)
+					stack = append(stack, prev, di|descentFlag)
 					if int(fi) == len(x)-1 { // last one
 						for i := len(got) - 1; 0 <= i; i-- {
 							results = append(results, got[i])
@@ -1158,9 +1157,9 @@ func (x Expr) FirstFound(data any) (any, bool) {
 			if (di & descentFlag) == 0 {
 				switch tv := prev.(type) {
 				case map[string]any:
-					// Put prev back and slide fi.
-					stack[len(stack)-1] = prev
-					stack = append(stack, di|descentFlag)
+					// Put prev back under a frame of its own; the frame it came with
+					// may still serve siblings below it.
+					stack = append(stack, prev, di|descentFlag)
 					if int(fi) == len(x)-1 { // last one
 						for _, v = range tv {
 							return v, true
@@ -1183,9 +1182,9 @@ func (x Expr) FirstFound(data any) (any, bool) {
 						}
 					}
 				case []any:
-					// Put prev back and slide fi.
-					stack[len(stack)-1] = prev
-					stack = append(stack, di|descentFlag)
+					// Put prev back under a frame of its own; the frame it came with
+					// may still serve siblings below it.
+					stack = append(stack, prev, di|descentFlag)
 					if int(fi) == len(x)-1 { // last one
 						if 0 < len(tv) {
 							return tv[0], true
@@ -1210,9 +1209,9 @@ func (x Expr) FirstFound(data any) (any, bool) {
 					}
 				case Keyed:
 					keys := tv.Keys()
-					// Put prev back and slide fi.
-					stack[len(stack)-1] = prev
-					stack = append(stack, di|descentFlag)
+					// Put prev back under a frame of its own; the frame it came with
+					// may still serve siblings below it.
+					stack = append(stack, prev, di|descentFlag)
 					if int(fi) == len(x)-1 { // last one
 						if 0 < len(keys) {
 							return tv.ValueForKey(keys[0])
@@ -1260,9 +1259,9 @@ func (x Expr) FirstFound(data any) (any, bool) {
 						}
 					}
 				case gen.Object:
-					// Put prev back and slide fi.
-					stack[len(stack)-1] = prev
-					stack = append(stack, di|descentFlag)
+					// Put prev back under a frame of its own; the frame it came with
+					// may still serve siblings below it.
+					stack = append(stack, prev, di|descentFlag)
 					if int(fi) == len(x)-1 { // last one
 						for _, v = range tv {
 							return v, true
@@ -1276,9 +1275,9 @@ func (x Expr) FirstFound(data any) (any, bool) {
 						}
 					}
 				case gen.Array:
-					// Put prev back and slide fi.
-					stack[len(stack)-1] = prev
-					stack = append(stack, di|descentFlag)
+					// Put prev back under a frame of its own; the frame it came with
+					// may still serve siblings below it.
+					stack = append(stack, prev, di|descentFlag)
 					if int(fi) == len(x)-1 { // last one
 						if 0 < len(tv) {
 							return tv[0], true
@@ -1294,8 +1293,7 @@ func (x Expr) FirstFound(data any) (any, bool) {
 					}
 				default:
 					got := reflectGetWild(tv)
-					stack[len(stack)-1] = prev
-					stack = append(stack, di|descentFlag)
+					stack = append(stack, prev, di|descentFlag)
 					if int(fi) == len(x)-1 { // last one
 						if 0 < len(got) {
 							return got[0], true
